@@ -218,3 +218,68 @@ def io_shapes(max_len=2):
             lines = ['X is "init"'] + defs + body + ['say X']
             out.append(('\n'.join(lines) + '\n', {'out_calls': oc, 'in_calls': ic}))
     return out
+
+
+# ------------------------------------------------------------------- every statement on every value kind (C09)
+KIND_PRELUDE = {
+    'undefined-name': [],
+    'mysterious': ['Put mysterious into X'],
+    'null': ['Put null into X'],
+    'boolean': ['Put 9001 is 9002 into X'],
+    'number': ['Put 9001 into X'],
+    'string': ['Put "§1" into X'],
+    'array': ['Rock X with 9001, "§1"', 'Let X at "k" be 9002'],
+    'empty-array': ['Rock X'],
+    'function': ['X takes P', 'give back P', ''],
+}
+OPERAND = {'number': '9003', 'string': '"§2"', 'array': 'Y', 'null': 'null'}
+OPERAND_PRELUDE = {'array': ['Rock Y with 9003, "§2"']}
+# statement / expression forms with X in every operand slot; {Y} is the second operand
+FORMS_1 = ['say X', 'say not X', 'say 0 minus X', 'Build X up', 'Knock X down, down', 'Turn up X', 'Turn down X', 'Turn round X', 'Cut X', 'Cut X into Z', 'Join X', 'Join X into Z',
+           'Cast X', 'Cast X into Z', 'Rock X', 'Rock X like a lovestruck ladykiller', 'Roll X', 'Roll X into Z', 'say roll X', 'X taking 1', 'say X taking 1, 2', 'If X\nsay 1\n', 'While X\nsay 1\nbreak\n',
+           'Until X\nsay 1\nbreak\n', 'Listen to X', 'give back X', 'X is a rockstar', 'X says hello', 'say X at 0 at 1', 'Let X at 0 at 1 be 2', 'Put X into X', 'Let X be X', 'say X is X', 'say X plus X',
+           'Put X into W\nBuild W up\nsay W\nsay X', 'F takes P\nBuild P up\nRock P with 1\ngive back P\n\nsay F taking X\nsay X', 'say it', 'Let it at 1 be 1', 'Roll it', 'Rock it with 1']
+FORMS_2 = ['say X at {Y}', 'say {Y} at X', 'say X plus {Y}', 'say {Y} plus X', 'say X minus {Y}', 'say {Y} minus X', 'say X times {Y}', 'say {Y} times X', 'say X over {Y}', 'say {Y} over X',
+           'say X is {Y}', 'say X is not {Y}', 'say X is greater than {Y}', 'say {Y} is as low as X', 'say X and {Y}', 'say X or {Y}', 'say X nor {Y}', 'say X plus {Y}, {Y}', 'say X times {Y}, X',
+           'Let X at {Y} be 1', 'Let Z at X be {Y}', 'Put {Y} into X', 'Let X be with {Y}', 'Let X be minus {Y}', 'Let X be times {Y}', 'Let X be over {Y}', 'Cut X with {Y}', 'Cut {Y} into Z with X',
+           'Join X with {Y}', 'Cast X with {Y}', 'Cast {Y} into Z with X', 'Rock X with {Y}', 'Rock X with {Y}, X', 'Listen to X at {Y}', 'say X taking {Y}', 'Let X at {Y} at {Y} be 1',
+           'Turn up X at {Y}', 'Build X up\nsay X at {Y}']
+
+
+def _finish(lines):
+    import re
+    text = '\n'.join(lines) + '\n'
+    spec = {}
+    for m in re.finditer(r'\b900(\d)\b', text): spec[f'n{m.group(1)}'] = {}
+    if 'n1' in spec and re.search(r' at X\b', text) and 'Put 9001 into X' in text: spec['n1'] = {'index': True}
+    for m in re.finditer(r'§(\d)', text): spec[f's{m.group(1)}'] = {}
+    return text, spec
+
+
+def kind_shapes(operands=('number', 'string', 'array', 'null')):
+    """[(text, spec, tag)]: X of every kind x every one-operand form, x every two-operand form with the other operand of every kind"""
+    out = []
+    for kind, pre in KIND_PRELUDE.items():
+        for f in FORMS_1:
+            t, sp = _finish(pre + [f, 'say "end"'])
+            out.append((t, sp))
+        for f in FORMS_2:
+            for ok in operands:
+                t, sp = _finish(pre + OPERAND_PRELUDE.get(ok, []) + [f.replace('{Y}', OPERAND[ok]), 'say "end"'])
+                out.append((t, sp))
+    return out
+
+
+def poetic_length_shapes(nmax=40):
+    """poetic number literals of 1..=nmax words (word lengths cycling 1..10), without a dot and with the dot after 1 / half / all-but-one
+    of the words, in assignment, `like` push and `says`-free forms"""
+    out = []
+    for n in range(1, nmax + 1):
+        words = ['abcdefghij'[:(i % 10) + 1] for i in range(n)]
+        dots = {None, 1, n // 2, n - 1} - {0, n}
+        for d in sorted(dots, key=lambda x: -1 if x is None else x):
+            ws = list(words)
+            if d is not None: ws[d - 1] = ws[d - 1] + '.'
+            lit = ' '.join(ws)
+            out.append((f'X is {lit}\nsay X\nRock Arr like {lit}\nsay Arr\n', {}))
+    return out
